@@ -14,7 +14,7 @@ def configs(tier):
     ]
     if tier == 'quick': return q
     return q + [
-        ('any 5 events, parse + Display', dict(n=5, attrs=1, render=False, names=('a', 'b'))),
+        ('any 5 events without attributes, parse + Display', dict(n=5, attrs=0, render=False, names=('a', 'b'))),
         ('3 events, 4 adversarial names + attribute, render', dict(n=3, attrs=1, utf8=False, attr_err=False, kinds=REND, names=('a', ':é', 'xmlns:é', 'type'))),
         ('5 events, 2 names, render', dict(n=5, attrs=0, utf8=False, attr_err=False, kinds=REND, names=('a', 'é:b'))),
     ]
@@ -80,7 +80,7 @@ def main():
         kt = threading.Thread(target=kani_kernels, args=(c,)); kt.start()          # CBMC runs beside the rsym exploration
     if c.setup():
         for label, kw in configs(c.tier):
-            c.run(label, 'rsym.he', 'PanicFree', kw, time_cap=200 if c.tier == 'quick' else 3000)
+            c.run(label, 'rsym.he', 'PanicFree', kw, time_cap=200 if c.tier == 'quick' else 900)
         native_bytes(c, 150 if c.tier == 'quick' else 2000)
     if kt is not None: kt.join()
     c.finish(bounds={'scripts': [l for l, _ in configs(c.tier)], 'kani': 'starts_with_xmlns: all UTF-8 strings <= 7 (thorough: 8) bytes; remove_namespace: all UTF-8 strings of 1..4 (thorough: 5) bytes'},
